@@ -67,6 +67,10 @@ def detect_fixed_format(file_lines: list[str]) -> bool:
     >>> detect_fixed_format(['C Fixed format'])
     True
 
+    A statement that starts in column 1 is not fixed format
+    >>> detect_fixed_format(['program main', 'call run()', 'end program main'])
+    False
+
     Lines wih ampersands are not fixed format
     >>> detect_fixed_format(['trailing line & ! comment'])
     False
@@ -96,6 +100,10 @@ def detect_fixed_format(file_lines: list[str]) -> bool:
             pp_continue = line.rstrip().endswith("\\")
             continue
         if FRegex.FREE_FORMAT_TEST.match(line):
+            return False
+        # Columns 1-5 of a fixed-form line hold a comment flag (C, c, *, !, D, d),
+        # blanks or a statement label: any other letter in column 1 is free form
+        if re.match(r"[abe-z_]", line, re.I):
             return False
         tmp_match = FRegex.VAR.match(line)
         if tmp_match and tmp_match.start(1) < 6:
